@@ -181,12 +181,16 @@ def do_check(mod, a):
                 if not any(x["class"] == cls for x in v2):
                     agg["extra"].setdefault("minimiser_nonreproducing", []).append(cls)
                     msc = sc
+                else:
+                    first = dict(first, detail_of_original_instance=first.get("detail"),
+                                 detail=[x for x in v2 if x["class"] == cls][0].get("detail"))
             except Exception as e:
                 agg["extra"].setdefault("minimiser_errors", []).append(repr(e))
                 msc = sc
         path = core.write_replay(mod.PROP, "%s-%s" % (sc.get("seed"), short(cls, 8)), msc,
                                  {"class": cls, "detail": first.get("detail"), "instances_in_batch": len(by_class[cls]),
-                                  "minimiser_candidates_tried": tried})
+                                  "minimiser_candidates_tried": tried,
+                                  "detail_of_original_instance": first.get("detail_of_original_instance")})
         print("violation class: %s (%d instance(s))\n  %s" % (cls, len(by_class[cls]), (first.get("detail") or "")[:500]))
         print("VIOLATION property=%s replay=%s" % (mod.PROP, path))
     for cls, (k, n) in sorted(known_hit.items()):
